@@ -13,20 +13,22 @@ Inductive stmt :=
 | SAny (path : str) (hs : list nat) (hdr : bool)
 | SGroup (path : str) (hs : list nat) (body : list stmt)
 | SCombo (path : str) (common : list nat) (uses : list cuse)
-| SAutoHead (b : bool).
+| SAutoHead (b : bool)
+| SWrapper (b : bool).        (* HandlerWrapper(f) / HandlerWrapper(nil) between two declarations *)
 
 (* hdr: the statement is followed by .Headers(...) on the *Route it returns (Get: the GET route, not its
    HEAD twin; Routes: the route of the LAST method only; Any: the one route holding every method) *)
 
 (* a primitive registration: router.Route(method, fullPath, handlers), and whether .Headers(...) is then
    called on the *Route it returned *)
-Record freg := mkfreg { fr_method : str; fr_path : str; fr_hs : list nat; fr_hdr : bool }.
+(* fr_wr: a HandlerWrapper is installed at the moment router.Route runs for this registration *)
+Record freg := mkfreg { fr_method : str; fr_path : str; fr_hs : list nat; fr_hdr : bool; fr_wr : bool }.
 
 (* Routes returns the *Route of the last method it registered *)
 Fixpoint mark_last (hdr : bool) (l : list freg) : list freg :=
   match l with
   | [] => []
-  | [r] => [mkfreg (fr_method r) (fr_path r) (fr_hs r) hdr]
+  | [r] => [mkfreg (fr_method r) (fr_path r) (fr_hs r) hdr (fr_wr r)]
   | r :: l' => r :: mark_last hdr l'
   end.
 
@@ -47,10 +49,13 @@ Definition methods_of (methods : str) (extra : list str) : list str :=
   map trim (split_comma [] methods) ++ extra.
 
 (* ---------------- the code: an explicit stack of living groups ---------------- *)
-Record gst := mkg { autohead : bool; groups : list (str * list nat) (* outermost first *) }.
+(* the two router settings that flow from one declaration to the next *)
+Record flags := mkf { f_ah : bool; f_wr : bool }.
+Record gst := mkg { fl : flags; groups : list (str * list nat) (* outermost first *) }.
+Definition autohead (g : gst) : bool := f_ah (fl g).
 
 Definition route_in (g : gst) (m path : str) (hs : list nat) (hdr : bool) : freg :=
-  mkfreg m (concat (map fst (groups g)) ++ path) (concat (map snd (groups g)) ++ hs) hdr.
+  mkfreg m (concat (map fst (groups g)) ++ path) (concat (map snd (groups g)) ++ hs) hdr (f_wr (fl g)).
 
 (* Get returns the GET route; the HEAD twin is registered by a separate r.Head call whose result is dropped *)
 Definition get_in (g : gst) (path : str) (hs : list nat) (hdr : bool) : list freg :=
@@ -58,10 +63,10 @@ Definition get_in (g : gst) (path : str) (hs : list nat) (hdr : bool) : list fre
 
 (* ComboRoute.route: the same method twice is refused; the AutoHead setting current at each .Get counts *)
 Fixpoint combo_in (g : gst) (path : str) (common : list nat) (added : list str) (uses : list cuse)
-  : option (bool * list freg) :=
+  : option (flags * list freg) :=
   match uses with
-  | [] => Some (autohead g, [])
-  | CAuto b :: rest => combo_in (mkg b (groups g)) path common added rest
+  | [] => Some (fl g, [])
+  | CAuto b :: rest => combo_in (mkg (mkf b (f_wr (fl g))) (groups g)) path common added rest
   | CUse m hs :: rest =>
       if existsb (str_eqb m) added then None
       else match combo_in g path common (m :: added) rest with
@@ -99,14 +104,15 @@ Fixpoint exec_stmt (fuel : nat) (g : gst) (s : stmt) {struct fuel} : option (gst
     | SAny path hs hdr => Some (g, [route_in g m_star path hs hdr])
     | SGroup path hs body =>
         (* r.groups = append(r.groups, group{...}); fn(); r.groups = r.groups[:len-1] *)
-        let g1 := mkg (autohead g) (groups g ++ [(path, hs)]) in
+        let g1 := mkg (fl g) (groups g ++ [(path, hs)]) in
         match seq_list (exec_stmt f) g1 body with
         | None => None
-        | Some (g2, r) => Some (mkg (autohead g2) (removelast (groups g2)), r)
+        | Some (g2, r) => Some (mkg (fl g2) (removelast (groups g2)), r)
         end
     | SCombo path common uses =>
         match combo_in g path common [] uses with Some (ah, l) => Some (mkg ah (groups g), l) | None => None end
-    | SAutoHead b => Some (mkg b (groups g), [])
+    | SAutoHead b => Some (mkg (mkf b (f_wr (fl g))) (groups g), [])
+    | SWrapper b => Some (mkg (mkf (f_ah (fl g)) b) (groups g), [])
     end
   end.
 
@@ -120,51 +126,54 @@ Fixpoint depth (s : stmt) : nat :=
   end.
 Definition depth_list (l : list stmt) : nat := fold_right (fun s d => Nat.max (depth s) d) 0 l.
 
-Definition exec (p : list stmt) : option (list freg) :=
-  match exec_list (S (depth_list p)) (mkg false []) p with Some (_, r) => Some r | None => None end.
+(* w0: a HandlerWrapper is installed before the first declaration *)
+Definition exec (w0 : bool) (p : list stmt) : option (list freg) :=
+  match exec_list (S (depth_list p)) (mkg (mkf false w0) []) p with Some (_, r) => Some r | None => None end.
 
 (* ---------------- the specification: flat expansion with the lexical prefix ---------------- *)
-Definition reg_at (pp : str) (ph : list nat) (m path : str) (hs : list nat) (hdr : bool) : freg := mkfreg m (pp ++ path) (ph ++ hs) hdr.
+Definition reg_at (fs : flags) (pp : str) (ph : list nat) (m path : str) (hs : list nat) (hdr : bool) : freg :=
+  mkfreg m (pp ++ path) (ph ++ hs) hdr (f_wr fs).
 
-Definition get_at (ah : bool) (pp : str) (ph : list nat) (path : str) (hs : list nat) (hdr : bool) : list freg :=
-  reg_at pp ph m_get path hs hdr :: (if ah then [reg_at pp ph m_head path hs false] else []).
+Definition get_at (ah : flags) (pp : str) (ph : list nat) (path : str) (hs : list nat) (hdr : bool) : list freg :=
+  reg_at ah pp ph m_get path hs hdr :: (if f_ah ah then [reg_at ah pp ph m_head path hs false] else []).
 
-Fixpoint combo_at (ah : bool) (pp : str) (ph : list nat) (path : str) (common : list nat) (added : list str)
-  (uses : list cuse) : option (bool * list freg) :=
+Fixpoint combo_at (ah : flags) (pp : str) (ph : list nat) (path : str) (common : list nat) (added : list str)
+  (uses : list cuse) : option (flags * list freg) :=
   match uses with
   | [] => Some (ah, [])
-  | CAuto b :: rest => combo_at b pp ph path common added rest
+  | CAuto b :: rest => combo_at (mkf b (f_wr ah)) pp ph path common added rest
   | CUse m hs :: rest =>
       if existsb (str_eqb m) added then None
       else match combo_at ah pp ph path common (m :: added) rest with
            | None => None
-           | Some (ah', l) => Some (ah', (if str_eqb m m_get then get_at ah pp ph path (common ++ hs) false else [reg_at pp ph m path (common ++ hs) false]) ++ l)
+           | Some (ah', l) => Some (ah', (if str_eqb m m_get then get_at ah pp ph path (common ++ hs) false else [reg_at ah pp ph m path (common ++ hs) false]) ++ l)
            end
   end.
 
-(* AutoHead is the only thing that flows from one statement to the next *)
-Fixpoint flatten_stmt (ah : bool) (pp : str) (ph : list nat) (s : stmt) {struct s} : option (bool * list freg) :=
+(* the AutoHead setting and the HandlerWrapper are the only things that flow from one statement to the next *)
+Fixpoint flatten_stmt (ah : flags) (pp : str) (ph : list nat) (s : stmt) {struct s} : option (flags * list freg) :=
   match s with
-  | SRoute m path hs hdr => Some (ah, [reg_at pp ph m path hs hdr])
+  | SRoute m path hs hdr => Some (ah, [reg_at ah pp ph m path hs hdr])
   | SGet path hs hdr => Some (ah, get_at ah pp ph path hs hdr)
   | SRoutes path methods extra hs hdr =>
       match methods with
       | [] => None
-      | _ => Some (ah, mark_last hdr (map (fun m => reg_at pp ph m path hs false) (methods_of methods extra)))
+      | _ => Some (ah, mark_last hdr (map (fun m => reg_at ah pp ph m path hs false) (methods_of methods extra)))
       end
-  | SAny path hs hdr => Some (ah, [reg_at pp ph m_star path hs hdr])
+  | SAny path hs hdr => Some (ah, [reg_at ah pp ph m_star path hs hdr])
   | SGroup path hs body =>
       seq_list (fun ah s => flatten_stmt ah (pp ++ path) (ph ++ hs) s) ah body
   | SCombo path common uses =>
       combo_at ah pp ph path common [] uses
-  | SAutoHead b => Some (b, [])
+  | SAutoHead b => Some (mkf b (f_wr ah), [])
+  | SWrapper b => Some (mkf (f_ah ah) b, [])
   end.
 
-Definition flatten_list (ah : bool) (pp : str) (ph : list nat) (l : list stmt) : option (bool * list freg) :=
+Definition flatten_list (ah : flags) (pp : str) (ph : list nat) (l : list stmt) : option (flags * list freg) :=
   seq_list (fun ah s => flatten_stmt ah pp ph s) ah l.
 
-Definition flatten (p : list stmt) : option (list freg) :=
-  match flatten_list false [] [] p with Some (_, r) => Some r | None => None end.
+Definition flatten (w0 : bool) (p : list stmt) : option (list freg) :=
+  match flatten_list (mkf false w0) [] [] p with Some (_, r) => Some r | None => None end.
 
 (* ---------------- handlers at registration: validated and wrapped, all of them ---------------- *)
 (* router.Route runs validateAndWrapHandlers over the CONCATENATED list (group handlers included).
@@ -172,7 +181,7 @@ Definition flatten (p : list stmt) : option (list freg) :=
    installed every handler that has no fast invoker is wrapped exactly once: the wrapper's mark 0 runs
    before it. *)
 Definition callable (r : freg) : bool := negb (existsb (Nat.eqb 0) (fr_hs r)).
-Definition run_trace (wrap : bool) (r : freg) : list nat :=
-  if wrap then flat_map (fun h => [0; h]) (fr_hs r) else fr_hs r.
+Definition run_trace (r : freg) : list nat :=
+  if fr_wr r then flat_map (fun h => [0; h]) (fr_hs r) else fr_hs r.
 Definition checked (regs : option (list freg)) : option (list freg) :=
   match regs with Some l => if forallb callable l then Some l else None | None => None end.
